@@ -293,6 +293,11 @@ def run(ctx):
                 chrom = tr["chrom"] if "chrom" in tr else tr["chromosome"]
                 posidx = {v.pos: i for i, v in enumerate(sc.variants[chrom])}
                 for rd in tr["all_reads"]:
+                    if (rd["source_id"], rd["name"]) not in truth_of_read:
+                        ctx.fail(f"seam A: the solver was given a read {rd['name']!r} attributed to input file {rd['source_id']}, "
+                                 f"but that file holds no read of this name (reads of different files mixed up)", desc,
+                                 key="seam-read-identity")
+                        continue
                     s, h = truth_of_read[(rd["source_id"], rd["name"])]
                     hv = sc.haps[(s, chrom)][h]
                     for pos, al, q in rd["variants"]:
@@ -334,7 +339,7 @@ def run(ctx):
                              desc, key="seam-columns")
                 # A+B+C: the precondition of the solver theorems, evaluated by the Lean definition itself on the traced solver
                 #        input with the generator's truth (sound by Props.C02.checked_precondition_sound)
-                if len(fam) == 1:
+                if len(fam) == 1 and all((rd["source_id"], rd["name"]) in truth_of_read for rd in tr["all_reads"]):
                     s0 = fam[0]
                     h0 = sc.haps[(s0, chrom)][0]
                     truth_list = [[v.pos, h0[i]] for i, v in enumerate(sc.variants[chrom])]
